@@ -8,7 +8,7 @@ from vlib import *
 # set to True once the proposed repairs are committed to /repo (extension pre-check in
 # importFileWithExtensions / importResultWithExtensions, RLock in Lookup / LookupExtension):
 # the checks then compare against the repaired model and the full theorems become the claimed ones
-REPAIRED = False
+REPAIRED = os.environ.get("VERIF_SYMBOLS_REPAIRED", "0") == "1"   # or set to True once the fix is committed
 
 COQ_FILES = ["Common/Corr.v", "Model/Symbols.v", "Proofs/Symbols.v"]
 HEADER = ("From Coq Require Import List NArith ZArith Bool.\nImport ListNotations.\n"
